@@ -35,6 +35,7 @@ PATTERNS = [
     (r"^if \(PyErr_Occurred\(\)\)$", [(6, 0)]),
     (r"^\{c(xx)?_var\} = (static_cast<\{cxx_type\} \*>\s*\()?\s*(std::)?malloc\(", "MALLOC"),
     (r"^\{cxx_var\} = new \{cxx_type\};$", [(2, MEM)]),
+    (r"^Py_INCREF\(\{py_var\}\);$", [(2, PY)]),      # the argument object is returned again: a new owned reference
     (r"^Py_XDECREF\(\{py_var\}\);$", [(3, PY)]),
     (r"^\{PY_cleanup_decref\}\(\{py_var\}\);$", [(3, PY)]),
     (r"^Py_XDECREF\(\{value_var\}\.dataobj\);$", [(3, VAL)]),
@@ -103,9 +104,98 @@ def rows_for(lang, problems):
             ph[4] = [(3, MEM)] + ph[4]
         if not any(ph):
             continue
-        acquired_py = any(e == (1, PY) for p in ph[:3] for e in p)
+        acquired_py = any(e in ((1, PY), (2, PY)) for p in ph[:3] for e in p)
         released_py = any(e == (3, PY) for p in (ph[2], ph[3]) for e in p)
         rows.append(dict(lang=lang, name=name, phases=ph, ret=acquired_py and not released_py))
+    return rows
+
+
+# ---------------------------------------------------------------- member descriptors (py_descr_*)
+OBJ, DATA = 0, 1
+DESCR_SUSPICIOUS = re.compile(r"Py_X?(DECREF|INCREF|CLEAR)|c_var_obj|c_var_data|steal|hnamefunc|_New|From")
+DESCR_PATTERNS = [
+    (r"^Py_XDECREF\(\{c_var_obj\}\);$", [(3, OBJ)]),
+    (r"^Py_XDECREF\(\{c_var_data\}\);$", [(3, DATA)]),
+    (r"^\{c_var_obj\} = \{nullptr\};$", [(4, OBJ)]),
+    (r"^\{c_var_data\} = \{nullptr\};$", [(4, DATA)]),
+    (r"^\{c_var_obj\} = cvalue\.obj;\s*// steal reference$", [(2, OBJ)]),
+    (r"^\{c_var_data\} = cvalue\.dataobj;\s*// steal reference$", [(2, DATA)]),
+    (r"^\{c_var_obj\} = (rv|PyArray_SimpleNewFromData\()", [(8, OBJ)]),           # cached when NULL (guarded by the lines before)
+    (r"^if \(\{c_var_obj\} (!=|==) \{nullptr\}\) \{\{\+$", []),
+    (r"^Py_INCREF\((\{c_var_obj\}|rv)\);$", []),                                # the new reference is the getter's result
+    (r"^return \{c_var_obj\};$", []),
+    (r"^PyObject \*\s*rv = ", []),
+    (r"^\{cxx_decl\} = \{PY_get\};$", []),
+]
+DESCR_PATTERNS = [(re.compile(p), e) for p, e in DESCR_PATTERNS]
+CONVERT = re.compile(r"^if \(\{hnamefunc0\}\(.*\) == (0|-1)\) \{\{\+$")
+
+
+def descr_events(lines, problems, where):
+    evs = []
+    for ln in lines:
+        for rx, ev in DESCR_PATTERNS:
+            if rx.search(ln):
+                evs += ev
+                break
+        else:
+            if DESCR_SUSPICIOUS.search(ln):
+                problems.append("%s: cannot classify %r" % (where, ln))
+    return evs
+
+
+def flat_lines(texts):
+    out = []
+    for text in texts or []:
+        for ln in text.split("\n"):
+            ln = ln.strip()
+            if ln:
+                out.append(ln)
+    return out
+
+
+def dealloc_events():
+    """what Wrapp.tp_del (also the body of tp_dealloc) releases per array member"""
+    src = open(os.path.join(common.REPO, "shroud", "wrapp.py")).read()
+    m = re.search(r"    def tp_del\(self, node, msg, ret\):(.*?)\n    def ", src, re.S)
+    body = m.group(1) if m else ""
+    evs = []
+    if '"Py_XDECREF(self->{PY_member_object});"' in body:
+        evs.append((3, OBJ))
+    if '"Py_XDECREF(self->{PY_member_data});"' in body:
+        evs.append((3, DATA))
+    return evs
+
+
+def members_for(lang, problems):
+    rows = []
+    dealloc = dealloc_events()
+    for tab, name, d in extract_capsule.dump(lang):
+        if tab != "py" or not name.startswith("py_descr"):
+            continue
+        setter = flat_lines(d.get("setter"))
+        pre, fail, ok = [], [], []
+        cur = pre
+        depth = 0
+        for ln in setter:
+            if cur is pre and CONVERT.search(ln):
+                cur = fail
+                depth = 1
+                continue
+            if cur is fail:
+                if ln.endswith("{{+"):
+                    depth += 1
+                if ln == "-}}":
+                    depth -= 1
+                    if depth == 0:
+                        cur = ok
+                    continue
+            cur.append(ln)
+        where = "%s py %s" % (lang, name)
+        rows.append(dict(lang=lang, name=name, pre=descr_events(pre, problems, where + ".setter"),
+                         fail=descr_events(fail, problems, where + ".setter(error)"),
+                         ok=descr_events(ok, problems, where + ".setter(ok)"),
+                         getter=descr_events(flat_lines(d.get("getter")), problems, where + ".getter"), dealloc=dealloc))
     return rows
 
 
@@ -113,7 +203,7 @@ def lean_evs(evs):
     return "[" + ", ".join("(%d, %d)" % e for e in evs) + "]"
 
 
-def render(rows):
+def render(rows, members):
     L = ["/- GENERATED by tools/extract_pyres.py from the /repo working tree.  Do not edit. -/",
          "import ShroudVerif.Model.PyRes",
          "namespace Shroud.Gen.PyRes", "open Shroud.PyRes", "",
@@ -126,6 +216,15 @@ def render(rows):
             "[" + ", ".join(str(ord(c)) for c in r["name"]) + "]", 0 if r["lang"] == "c" else 1,
             lean_evs(p[0]), lean_evs(p[1]), lean_evs(p[2]), lean_evs(p[3]), lean_evs(p[4]), "true" if r["ret"] else "false"))
     L.append(",\n".join(body))
+    L += ["]", "",
+          "/-- (name, language, member descriptor) per effective py_descr_* block: setter before / error / ok, getter, dealloc -/",
+          "def members : List (List Nat × Nat × Member) := ["]
+    body = []
+    for r in members:
+        body.append("  (%s, %d, ⟨%s, %s, %s, %s, %s⟩)" % (
+            "[" + ", ".join(str(ord(c)) for c in r["name"]) + "]", 0 if r["lang"] == "c" else 1,
+            lean_evs(r["pre"]), lean_evs(r["fail"]), lean_evs(r["ok"]), lean_evs(r["getter"]), lean_evs(r["dealloc"])))
+    L.append(",\n".join(body))
     L += ["]", "", "end Shroud.Gen.PyRes", ""]
     return "\n".join(L)
 
@@ -133,14 +232,17 @@ def render(rows):
 def regenerate():
     problems = []
     rows = rows_for("c", problems) + rows_for("cxx", problems)
+    members = members_for("c", problems) + members_for("cxx", problems)
     if problems:
         raise Unclassified("\n".join(problems[:20]))
-    changed = extract_capsule.write_if_changed(GEN, render(rows))
-    return {"rows": len(rows), "with_events": sum(1 for r in rows if any(r["phases"])), "changed": changed, "row_list": rows}
+    changed = extract_capsule.write_if_changed(GEN, render(rows, members))
+    return {"members": len(members), "member_list": members, "rows": len(rows), "with_events": sum(1 for r in rows if any(r["phases"])), "changed": changed, "row_list": rows}
 
 
 if __name__ == "__main__":
     info = regenerate()
+    for r in info.pop("member_list"):
+        print(r)
     for r in info.pop("row_list"):
         print(r["lang"], r["name"], r["phases"], r["ret"])
     print(json.dumps(info))
